@@ -46,6 +46,23 @@ def registry(rep, names):
             except Exception:
                 continue
             rep.violation(cname, "identifier_outside_the_registry_accepted", nm, {"identifier": nm})
+    # the identifier must still resolve to the registered function after a save / load round trip into a default-constructed model
+    import os
+    tmp = H.subdir("c06files")
+    for cname, ctor in kinds[1:]:
+        for nm in sorted(names & reg):
+            n += 1
+            try:
+                a = ctor(distance=nm)
+                pth = os.path.join(tmp, "m.pkl")
+                a.save(pth)
+                b = ctor()
+                b.load(pth)
+            except Exception as ex:
+                rep.violation(cname, "save_load_raised", nm, {"identifier": nm, "exception": type(ex).__name__})
+                continue
+            if b.distance != nm or b.distance_fn is not d.DISTANCES[nm]:
+                rep.violation(cname, "distance_option_does_not_resolve_to_the_registered_function_after_load", nm, {"identifier": nm, "loaded_distance": b.distance})
     rep.count("registry_probes", n)
 
 
